@@ -56,8 +56,9 @@ def outcome(entry, text, language=None, filename=None, timeout=5.0, parser=None)
     from behave.parser import ParserError
     obs = {"k": "accept", "n": 0, "exc": "", "at": ""}
     result = None
-    old = signal.signal(signal.SIGALRM, _alarm)
-    signal.setitimer(signal.ITIMER_REAL, timeout)
+    # CPU time of this process, not wall time: a starved machine must not look like a parser that does not terminate
+    old = signal.signal(signal.SIGPROF, _alarm)
+    signal.setitimer(signal.ITIMER_PROF, timeout)
     try:
         try:
             if parser is not None:
@@ -65,12 +66,12 @@ def outcome(entry, text, language=None, filename=None, timeout=5.0, parser=None)
             else:
                 result = call_entry(entry, text, language, filename)
         finally:
-            signal.setitimer(signal.ITIMER_REAL, 0)
+            signal.setitimer(signal.ITIMER_PROF, 0)
     except ParserError as e:
         n = e.line
         obs.update(k="error", n=n if isinstance(n, int) and not isinstance(n, bool) else -1, exc="ParserError")
     except _Timeout:
-        obs.update(k="timeout")
+        obs.update(k="timeout", exc="Timeout")
     except BaseException as e:       # noqa: B902 -- whatever escapes is recorded, never raised into the harness
         at = ""
         for fr in traceback.extract_tb(e.__traceback__):
@@ -78,5 +79,5 @@ def outcome(entry, text, language=None, filename=None, timeout=5.0, parser=None)
                 at = fr.name
         obs.update(k="internal", exc=type(e).__name__, at=at)
     finally:
-        signal.signal(signal.SIGALRM, old)
+        signal.signal(signal.SIGPROF, old)
     return obs, result
